@@ -1,5 +1,15 @@
 #!/usr/bin/env python3
-"""C06 — exit status, iteration count, reported residual.  See DESIGN.md §6 C06."""
+"""C06 — exit status, iteration count, reported residual.  See DESIGN.md §6 C06.
+
+Two stages on one Report (evidence/C06.json), one proof stage over Props/C06 (kernels) and
+Props/C06_{Panoc,Zerofpr,Pantr,Fista,Ocp} (loops):
+  kernel level   check_all_stop_conditions / calc_error_stop_crit / stop_crit_requires_grad_ψx̂ of the real
+                 library against the generated definitions (bit-exact) and their documented meaning;
+  loop level     checks/c06_loop.py: per solver, runs of the real solver, bit-exact trace replay, and the
+                 monitor on the returned Stats / final callback: iterations ≤ max_iter, Converged ⇔ ε ≤ tol,
+                 ε recomputed from the final callback's data, MaxIter / NotFinite / NoProgress / Interrupted /
+                 MaxTime only under the documented condition.
+"""
 import math
 import os
 import sys
@@ -163,32 +173,124 @@ def nontrivial(op, out):
     return op if not op.startswith('reqgrad') else None
 
 
+KERNEL_LIB = ['problem/type-erased-problem.cpp', 'inner/internal/panoc-helpers.cpp',
+              'util/demangled-typename.cpp', 'util/print.cpp', 'inner/internal/solverstatus.cpp',
+              'inner/internal/panoc-stop-crit.cpp', 'problem/problem-counters.cpp']
+
+
+def kernel_stage(rep, broken, tier):
+    """Kernel-level stage: the real check_all_stop_conditions / calc_error_stop_crit /
+    stop_crit_requires_grad_ψx̂ against the generated definitions (bit-exact) and the documented meaning
+    (monitor above).  → (found a failing input?, harness exe, search function)."""
+    import random
+    exe, log = C.build_exe('c06', [os.path.join(C.VERIF, 'harness', 'c06.cpp')] + C.repo_lib_sources(KERNEL_LIB))
+    if exe is None:
+        broken.append('kernel harness does not compile against the working tree: ' + log[-1500:])
+        return False, None, None
+    n = 80000 if tier == 'thorough' else 4000
+    rng = random.Random(C.seed() * 1000003 + (17 if tier == 'thorough' else 0))
+    ops = gen_ops(rng, n)
+    distinct = set()
+    found = [False]
+
+    def run_monitors(ops, hout, label):
+        st, bad = {}, 0
+        for i, (o, h) in enumerate(zip(ops, hout)):
+            try:
+                m = monitor(o, h, st)
+            except Exception as e:       # a monitor crash must not look like a pass
+                m = f'monitor crashed on output {h[:80]!r}: {e!r}'
+            if m:
+                rep.violation(f'{label}: {m}', {'op': o, 'impl_out': h, 'index': i}, True)
+                found[0] = True
+                bad += 1
+                if bad >= 5:
+                    break
+            k = nontrivial(o, h)
+            if k is not None:
+                distinct.add(k)
+        return bad
+
+    hout, rc, err = C.run_lines(exe, ops)
+    if rc != 0 or len(hout) != len(ops):
+        rep.violation(f'real code crashed / aborted on op #{len(hout)} (rc={rc}): {err[-300:]}',
+                      {'op': ops[len(hout)] if len(hout) < len(ops) else None, 'stderr': err}, True)
+        found[0] = True
+    run_monitors(ops, hout, 'monitor')
+    rep.cov['evaluations'] += len(hout)
+    rep.add_samples([{'op': o, 'impl': h} for o, h in list(zip(ops, hout))[:3]])
+    dexe = C.driver_exe('drv_c06')
+    if os.path.exists(dexe):
+        dout, rc, err = C.run_lines(dexe, ops)
+        i = C.diff_streams(ops, hout, dout)
+        rep.cov['kernel_traces_validated'] = len(ops) if i is None else i
+        rep.cov['traces_validated_against_impl'] += len(ops) if i is None else i
+        if i is not None:
+            broken.append(f'kernel correspondence: model and implementation differ on op #{i}: '
+                          f'{ops[i][:200] if i < len(ops) else "<eof>"} impl={hout[i][:200] if i < len(hout) else None} '
+                          f'model={dout[i][:200] if i < len(dout) else None}')
+    else:
+        broken.append('driver executable drv_c06 missing')
+    rep.cov['distinct_nontrivial_kernel'] = len(distinct)
+
+    def search():
+        for k in range(8):
+            rng2 = random.Random(C.seed() * 7919 + 1000 + k)
+            ops2 = gen_ops(rng2, n)
+            hout2, rc, err = C.run_lines(exe, ops2)
+            rep.cov['evaluations'] += len(hout2)
+            if run_monitors(ops2, hout2, 'search'):
+                return True
+        return False
+    return found[0], exe, search
+
+
+def main(argv):
+    """Proof stage over Props/C06 and the five Props/C06_<solver> modules, then the kernel-level stage and
+    the loop-level stage (checks/c06_loop.py) — one Report, evidence/C06.json."""
+    import c06_loop
+    import multiloop
+    tier = C.tier_from_argv(argv)
+    rep = C.Report('C06', tier, 'proof')
+    sols = c06_loop.adapters()
+    modules, gens, extra, drivers = multiloop.stage_inputs('C06', sols, ['Alpaqa.Props.C06', 'Alpaqa.Props.C06_Panoc'])
+    gens = ['gen_c06.py', 'gen_c15.py'] + [g for g in gens if g not in ('gen_c06.py', 'gen_c15.py')]
+    extra = ['Alpaqa/Gen/C06.lean', 'Alpaqa/Model/XR.lean', 'Alpaqa/Proofs/VecLemmas.lean',
+             'Alpaqa/Proofs/Basic.lean'] + [e for e in extra if e != 'Alpaqa/Gen/C06.lean']
+    rep.cov['trusted_base'] = [
+        'Lean 4.33 kernel + Mathlib (axioms: propext, Classical.choice, Quot.sound)',
+        'gen/gen_c06.py translator: check_all_stop_conditions (helpers + panoc-ocp copy), '
+        'calc_error_stop_crit (10 + 6 cases), stop_crit_requires_grad_ψx̂, enums, no_progress update '
+        '(identical statement in panoc/zerofpr/fista/panoc-ocp); gen_c05 (acceptance tests used by the loop models)',
+        'time limit and stop flag enter the chain as Boolean oracles'] + c06_loop.TRUSTED
+    rep.assumptions = ['Eigen reductions are left folds under the harness flags (bit-exact correspondence '
+                       'confirms on every run)',
+                       'real-number semantics in the loop theorems; monitors recompute ε in doubles in the '
+                       'documented order (bit equality for ∞-norm criteria, ≤ 4 ulp where a 2-norm / sum enters)']
+    rep.cov['rule'] = ('kernel level: seeded random status-chain inputs over tolerances {≤0, finite, inf, NaN}, ε in '
+                       '{finite, ±inf, NaN, exactly tol}, k around max_iter, counters around max_no_progress, both '
+                       'oracle flags; criterion inputs n∈{0..5}, m∈{0,1,3}, consistent and inconsistent iterate '
+                       'data, infinite / equal bounds, NaN/inf entries; all 10 criteria; distinct = distinct op '
+                       'lines.  ' + c06_loop.RULE)
+    ps = C.proof_stage(rep, 'C06', gens, modules, driver='drv_c06', extra_sources=extra, extra_targets=drivers)
+    broken = list(ps['broken'])
+    found, exe, search = kernel_stage(rep, broken, tier)
+    found = c06_loop.loop_stage(rep, broken, tier, sols) or found
+    rep.cov['distinct_nontrivial'] = rep.cov.get('distinct_nontrivial_kernel', 0) + \
+        rep.cov.get('distinct_nontrivial_loop', 0)
+    broken.extend(g for g in C.GEN_ERRORS if g not in broken)
+    if broken and not found and search is not None:
+        rep.note('obligation / tie broken; searching for a failing input on the real code')
+        found = search()
+    if broken:
+        for b in broken:
+            rep.note('BROKEN: ' + b[:600])
+        if not found:
+            rep.violation('property no longer shown to hold: ' + '; '.join(b[:300] for b in broken[:4]),
+                          {'broken': broken}, has_input=False)
+        rep.cov['discharged'] = min(rep.cov['discharged'], max(0, rep.cov['obligations'] - 1))
+    return rep.finish()
+
+
 if __name__ == '__main__':
-    sys.exit(C.standard_check(
-        'C06', sys.argv,
-        gen_scripts=['gen_c06.py', 'gen_c15.py'], modules=['Alpaqa.Props.C06'], driver='drv_c06',
-        extra_sources=['Alpaqa/Gen/C06.lean', 'Alpaqa/Model/XR.lean', 'Alpaqa/Proofs/VecLemmas.lean',
-                       'Alpaqa/Proofs/Basic.lean'],
-        harness_name='c06',
-        harness_sources=[os.path.join(C.VERIF, 'harness', 'c06.cpp')] + C.repo_lib_sources(
-            ['problem/type-erased-problem.cpp', 'inner/internal/panoc-helpers.cpp',
-             'util/demangled-typename.cpp', 'util/print.cpp', 'inner/internal/solverstatus.cpp',
-             'inner/internal/panoc-stop-crit.cpp', 'problem/problem-counters.cpp']),
-        gen_ops=gen_ops, monitor=monitor, nontrivial=nontrivial,
-        n_quick=4000, n_thorough=80000,
-        trusted_base=[
-            'Lean 4.33 kernel + Mathlib (axioms: propext, Classical.choice, Quot.sound)',
-            'gen/gen_c06.py translator: check_all_stop_conditions (helpers + panoc-ocp copy), '
-            'calc_error_stop_crit (10 + 6 cases), stop_crit_requires_grad_ψx̂, enums, no_progress update '
-            '(identical statement in panoc/zerofpr/fista/panoc-ocp)',
-            'time limit and stop flag enter the chain as Boolean oracles',
-            'loop-level facts (which iterate ε is computed from, iteration bound) are proved for the loop '
-            'models and checked on the real solvers by the solver-run monitors (checks/solvers.py)',
-        ],
-        assumptions=['Eigen reductions are left folds under the harness flags (bit-exact correspondence '
-                     'confirms on every run)'],
-        rule='seeded random: status-chain inputs over tolerances {≤0, finite, inf, NaN}, ε in {finite, ±inf, '
-             'NaN, exactly tol}, k around max_iter, counters around max_no_progress, both oracle flags; '
-             'criterion inputs n∈{0..5}, m∈{0,1,3}, consistent and inconsistent iterate data, infinite / '
-             'equal bounds, NaN/inf entries; all 10 criteria; distinct = distinct op lines',
-    ))
+    sys.exit(main(sys.argv))
